@@ -339,9 +339,12 @@ func (fc *FnCtx) contractExprAtWith(st *State, c *Clause, pos token.Pos, extra m
 		ce.names[k] = v
 	}
 	if c.Kind == "ensures" || c.AnchorKind == "return" {
-		// parameters denote their entry values; results by name
-		for n, t := range fc.paramInit {
-			ce.names[n] = t
+		// in `ensures`, parameters denote their entry values (what the caller passed); an `at return` clause
+		// is code-level and sees parameters like any other local (current value; old(p) is the entry value)
+		if c.Kind == "ensures" {
+			for n, t := range fc.paramInit {
+				ce.names[n] = t
+			}
 		}
 		for i, rv := range fc.results {
 			v := st.vars[rv]
